@@ -153,7 +153,7 @@ def show(n, depth=0):
 
 
 class Block:
-    __slots__ = ("id", "elems", "term", "tk", "top", "cond", "succs", "unreach", "label", "noret", "preds")
+    __slots__ = ("id", "elems", "term", "tk", "top", "cond", "cond_full", "joined", "succs", "unreach", "label", "noret", "preds")
 
     def __init__(self, d):
         self.id = d["b"]
@@ -162,6 +162,8 @@ class Block:
         self.tk = d.get("tk")
         self.top = d.get("top")
         self.cond = d.get("c")
+        self.cond_full = self.cond
+        self.joined = False
         self.succs = d.get("s", [])
         self.unreach = d.get("u")
         self.label = d.get("lab")
@@ -317,15 +319,13 @@ class CFG:
                 else:
                     el.append(e)
             b.elems = el
-            # the condition a two-way block really tests is the right-most
-            # operand of a short-circuit condition (the rest lives in earlier blocks)
-            if b.cond is not None and len(b.succs) == 2:
-                c = fn.nodes.get(b.cond)
-                c = peel(c) if c is not None else None
-                while c is not None and c.get("k") == "bin" and c.get("op") in ("&&", "||"):
-                    c = peel(c["y"])
-                if c is not None and "i" in c:
-                    b.cond = c["i"]
+            # A two-way block whose terminator condition is a short-circuit tree
+            # either is *wired* (clang split the tree over blocks; this block
+            # evaluates only the right-most leaf) or *joined* (the tree was
+            # evaluated as a value, e.g. under an ExprWithCleanups, and this
+            # block branches on the joined result).  Decided below, once all
+            # blocks are known.
+            b.cond_full = b.cond
             self.blocks[b.id] = b
         for b in self.blocks.values():
             for s in b.succs:
@@ -333,6 +333,38 @@ class CFG:
                     self.blocks[s].preds.append(b.id)
         self._block_of = None
         self._dom = None
+        for b in self.blocks.values():
+            b.joined = False
+            if b.cond is None or len(b.succs) != 2:
+                continue
+            c = fn.nodes.get(b.cond)
+            c = peel(c) if c is not None else None
+            leaf = c
+            while leaf is not None and leaf.get("k") == "bin" and leaf.get("op") in ("&&", "||"):
+                leaf = peel(leaf["y"])
+            if leaf is None or leaf is c or "i" not in leaf:
+                continue
+            where = self.block_of.get(leaf["i"])
+            if where is not None and where[0] == b.id:
+                b.cond = leaf["i"]          # wired
+            else:
+                b.joined = True             # keep the full condition
+
+    def edge_facts(self):
+        """Yield (block, succ index, atom, truth): taking that edge implies
+        `atom` evaluates to `truth`.  Negations are folded; for joined
+        short-circuit conditions the true edge implies every conjunct and the
+        false edge refutes every disjunct."""
+        fn = self.fn
+        for bid, b in self.blocks.items():
+            if b.cond is None or len(b.succs) != 2:
+                continue
+            c = fn.nodes.get(b.cond)
+            if c is None:
+                continue
+            for idx, truth in ((0, True), (1, False)):
+                for atom, t in implied(c, truth):
+                    yield bid, idx, atom, t
 
     # element id -> block id (first occurrence)
     @property
@@ -457,6 +489,22 @@ class CFG:
                         covered.add(sub["i"])
         out.reverse()
         return out
+
+
+def implied(node, truth):
+    """Leaf facts implied by `node == truth`: [(atom, truth)]."""
+    n = peel(node)
+    if n is None:
+        return []
+    if n.get("k") == "un" and n.get("op") == "!":
+        return implied(n["e"], not truth)
+    if n.get("k") == "call" and n.get("opc") and n.get("f", "").endswith("operator!") and len(n.get("a", [])) == 1:
+        return implied(n["a"][0], not truth)
+    if n.get("k") == "bin" and n.get("op") == "&&":
+        return (implied(n["x"], True) + implied(n["y"], True)) if truth else []
+    if n.get("k") == "bin" and n.get("op") == "||":
+        return (implied(n["x"], False) + implied(n["y"], False)) if not truth else []
+    return [(n, truth)]
 
 
 def cond_atom(fn, node):
